@@ -126,6 +126,7 @@ type deferred struct {
 
 // State: everything that is rebuilt for every path.
 type State struct {
+	resolveDepth int
 	w  *Worker
 	c  *smt.Ctx
 	tc *typeCache
